@@ -339,7 +339,7 @@ impl Hist {
             self.w.must("initialize_fee_tier(2)", &ix);
         }
         let shared = self.w.mint_of(self.pool, share_a);
-        let newm = if spec2.mint_kind >= 1 { self.w.create_t22_mint(None) } else { self.w.create_spl_mint() };
+        let newm = if spec2.mint_kind == 3 { self.w.create_t22_mint(spec2.tf2) } else if spec2.mint_kind >= 1 { self.w.create_t22_mint(None) } else { self.w.create_spl_mint() };
         let pool2 = match &spec2.adaptive {
             Some(k) => {
                 let auth = self.w.new_signer();
